@@ -148,7 +148,7 @@ def gen_sequences(ck: Check):
         pairs = [(a, b) for a in range(N) for b in range(a + 1, N)]
         combos = list(itertools.product(range(3), repeat=len(pairs)))
         if N == 4 and quick:
-            combos = rng.sample(combos, 120)
+            combos = rng.sample(combos, 300)
         for c in combos:
             M = [[0] * N for _ in range(N)]
             for (a, b), v in zip(pairs, c):
@@ -172,14 +172,14 @@ def gen_sequences(ck: Check):
         for nm, fn in DISTS:
             yield f"bnd_{nm}", objs, fn, None
     # (3) structured random: value sequences with duplicates and ties under the named distance functions
-    for _ in range(150 if quick else 2500):
+    for _ in range(500 if quick else 2500):
         N = rng.choice([2, 3, 4, 5, 6, 8, 12] if quick else [2, 3, 4, 5, 6, 8, 12, 20, 40])
         spread = rng.choice([2, 3, N, 2 * N, 10 * N])
         vals = [rng.randint(-spread, spread) if rng.random() < 0.3 else rng.randint(0, spread) for _ in range(N)]
         nm, fn = rng.choice(DISTS)
         yield f"rnd_{nm}", [Obj(i, v) for i, v in enumerate(vals)], fn, None
     # random matrices: asymmetric, not metric, many zeros and ties
-    for _ in range(150 if quick else 2500):
+    for _ in range(500 if quick else 2500):
         N = rng.choice([2, 3, 4, 5, 6, 9] if quick else [2, 3, 4, 5, 6, 9, 15, 30])
         hi = rng.choice([1, 2, 3, N, 100, 10 ** 6, 2 ** 62])
         zf = rng.choice([0.0, 0.1, 0.3])
@@ -187,54 +187,97 @@ def gen_sequences(ck: Check):
         yield "rnd_matrix", [Obj(i, i) for i in range(N)], matrix_dist(M), M
 
 
+def add_seq(ck: Check, ops, meta, stream, objs, fn, M, p, h, pmodel=None, expect_ok=False):
+    """one call of from_sequence_and_distance: correspondence line + the property's clauses on the result"""
+    N = len(objs)
+    if M is None:
+        M = full_matrix(objs, fn)
+    Mi = M if all(isinstance(v, int) and not isinstance(v, bool) for r in M for v in r) else dense_int_matrix(M)
+    inst, iout = impl_from_sequence(objs, fn, p, h)
+    ck.count(stream)
+    ck.count("seq_ok" if inst is not None else "seq_" + iout)
+    # everything needed to re-run the case (`./check C20 --replay`): the order-isomorphic integer distance table
+    ctx = {"kind": "seq", "stream": stream, "values": [o.val for o in objs], "M": Mi, "p": p, "h": h,
+           "expect_ok": expect_ok}
+    if expect_ok:
+        # C: totality (theorem dedupe_total + constructor guards): valid parameters and distances must yield an instance
+        ck.spec(inst is not None, "total", f"no instance is derived ({iout}) although every distance is a valid "
+                "finite non-negative number and flow power / horizon are in range", ctx)
+    if pmodel is not None or isinstance(p, int):
+        line = f"o1I {p if pmodel is None else pmodel} {h} ; {fmt_matrix(Mi)}"
+        ops.append(line)
+        meta.append(("o1I", stream, iout, None))
+        ck.case(line, nontrivial=inst is not None)
+    else:
+        ck.count("float_power")
+    if inst is None:
+        return
+    n = inst.n
+    if n < N:
+        ck.count("purged")
+    # ---- C: de-duplication clause on the implementation's tags
+    objs_l = [int(t[0]) for t, _ in inst.tags]
+    reps_l = [int(k) for _, k in inst.tags]
+    kept = []
+    for r in range(n):
+        grp = [o for o, k in zip(objs_l, reps_l) if k == r]
+        kept.append(min(grp) if grp else 10 ** 9)
+    line = f"o1D {fmt_matrix(Mi)} ; {fmt_ints(kept)} ; {fmt_ints(objs_l)} ; {fmt_ints(reps_l)}"
+    ops.append(line)
+    meta.append(("o1D", stream, None, dict(ctx, tags=list(zip(objs_l, reps_l)))))
+    # ---- C: flow clauses on the implementation's matrices; D = distances of the kept objects, earlier object first
+    if all(k < N for k in kept):
+        D = [[0 if a == b else (Mi[kept[a]][kept[b]] if kept[a] < kept[b] else Mi[kept[b]][kept[a]])
+              for b in range(n)] for a in range(n)]
+        strict = 1 if (isinstance(p, int) or pmodel is not None) else 0
+        line = (f"o1C {h} {strict} ; {fmt_matrix(D)} ; {fmt_matrix(inst.distances.tolist())} ; "
+                f"{fmt_matrix(inst.flows.tolist())}")
+        ops.append(line)
+        meta.append(("o1C", stream, None, dict(ctx, D=D if n <= 12 else f"<{n}>",
+                                               flows=inst.flows.tolist() if n <= 12 else f"<{n}>")))
+        ck.count("dbl_path" if _has_fractional(D, h) else "plain_path")
+
+
+def add_ctor(ck: Check, ops, meta, D, p, h):
+    """the constructor alone on an arbitrary matrix"""
+    n, m = len(D), len(D[0])
+    inst, iout = impl_ctor(D, p, h)
+    line = f"o1K {p} {h} ; {fmt_matrix(D)}"
+    ops.append(line)
+    meta.append(("o1K", "ctor" if m == n else "ctor_nonsquare", iout, None))
+    ck.count("ctor" if m == n else "ctor_nonsquare")
+    ck.case(line, nontrivial=inst is not None)
+    if inst is not None and m == n:
+        line = (f"o1C {h} 1 ; {fmt_matrix(D)} ; {fmt_matrix(inst.distances.tolist())} ; "
+                f"{fmt_matrix(inst.flows.tolist())}")
+        ops.append(line)
+        meta.append(("o1C", "ctor", None, {"kind": "ctor", "D": D, "p": p, "h": h, "flows": inst.flows.tolist()}))
+
+
+def eval_instance_ops(ck: Check, ops, meta) -> None:
+    outs = ck.model(ops)
+    for line, (op, stream, iout, ctx), mout in zip(ops, meta, outs):
+        if op == "o1I":
+            ck.compare(stream, line, sel(mout, ("n", "hor", "dist", "flows", "maps")), iout)
+        elif op == "o1K":
+            if stream == "ctor_nonsquare" and "-" in kv(mout).get("flows", ""):
+                # a wider-than-high matrix can give a negative base; the QAP super-constructor then wraps the
+                # negative flow into an unsigned type -- outside the domain of the property (square matrices)
+                ck.count("ctor_nonsquare_negative_flow(skipped)")
+                continue
+            ck.compare(stream, line, sel(mout, ("n", "hor", "dist", "flows")), iout)
+        elif op == "o1D":
+            ck.spec(mout == "spec=true", "dedupe", "mappings/tags violate the de-duplication clause "
+                    "(every object exactly once, mapped to itself or to the first kept object at distance zero; "
+                    "kept objects pairwise at positive distance): " + mout, ctx)
+        elif op == "o1C":
+            clause = kv(mout).get("spec", mout)
+            ck.spec(clause == "ok", "flows_" + clause, f"flow/distance matrices violate clause '{clause}'", ctx)
+
+
 def instance_streams(ck: Check) -> None:
     rng = ck.rng
     ops, meta = [], []
-
-    def add_seq(stream, objs, fn, M, p, h, pmodel=None):
-        N = len(objs)
-        if M is None:
-            M = full_matrix(objs, fn)
-        Mi = M if all(isinstance(v, int) and not isinstance(v, bool) for r in M for v in r) else dense_int_matrix(M)
-        inst, iout = impl_from_sequence(objs, fn, p, h)
-        ck.count(stream)
-        ck.count("seq_ok" if inst is not None else "seq_" + iout)
-        if pmodel is not None or isinstance(p, int):
-            line = f"o1I {p if pmodel is None else pmodel} {h} ; {fmt_matrix(Mi)}"
-            ops.append(line)
-            meta.append(("o1I", stream, iout, None))
-            ck.case(line, nontrivial=inst is not None)
-        else:
-            ck.count("float_power")
-        if inst is None:
-            return
-        n = inst.n
-        if n < N:
-            ck.count("purged")
-        # ---- C: de-duplication clause on the implementation's tags
-        objs_l = [int(t[0]) for t, _ in inst.tags]
-        reps_l = [int(k) for _, k in inst.tags]
-        kept = []
-        for r in range(n):
-            grp = [o for o, k in zip(objs_l, reps_l) if k == r]
-            kept.append(min(grp) if grp else 10 ** 9)
-        line = f"o1D {fmt_matrix(Mi)} ; {fmt_ints(kept)} ; {fmt_ints(objs_l)} ; {fmt_ints(reps_l)}"
-        ops.append(line)
-        meta.append(("o1D", stream, None, {"values": [o.val for o in objs], "dist": stream, "M": Mi if N <= 8 else f"<{N}>",
-                                           "tags": list(zip(objs_l, reps_l))}))
-        # ---- C: flow clauses on the implementation's matrices; D = distances of the kept objects, earlier object first
-        if all(k < N for k in kept):
-            D = [[0 if a == b else (Mi[kept[a]][kept[b]] if kept[a] < kept[b] else Mi[kept[b]][kept[a]])
-                  for b in range(n)] for a in range(n)]
-            strict = 1 if (isinstance(p, int) or pmodel is not None) else 0
-            line = (f"o1C {h} {strict} ; {fmt_matrix(D)} ; {fmt_matrix(inst.distances.tolist())} ; "
-                    f"{fmt_matrix(inst.flows.tolist())}")
-            ops.append(line)
-            meta.append(("o1C", stream, None, {"values": [o.val for o in objs], "dist": stream, "p": p, "h": h,
-                                               "D": D if n <= 8 else f"<{n}>",
-                                               "flows": inst.flows.tolist() if n <= 8 else f"<{n}>"}))
-            ck.count("dbl_path" if _has_fractional(D, h) else "plain_path")
-
     for stream, objs, fn, M in gen_sequences(ck):
         N = len(objs)
         if stream.startswith("exh"):
@@ -250,61 +293,33 @@ def instance_streams(ck: Check) -> None:
             for p in ps:
                 if p is None:
                     p = safe_power(rng, N, h, ck.quick)
-                add_seq(stream, objs, fn, M, p, h)
+                add_seq(ck, ops, meta, stream, objs, fn, M, p, h, expect_ok=True)
         if not stream.startswith("exh") and rng.random() < 0.3:
             # float powers: outside the model, property clauses are *tested* on the implementation
-            add_seq(stream + "_fp", objs, fn, M, rng.choice([1.5, 0.5, 2.5, 1.25, 3.0]), rng.randint(1, N + 2))
+            add_seq(ck, ops, meta, stream + "_fp", objs, fn, M, rng.choice([1.5, 0.5, 2.5, 1.25, 3.0]),
+                    rng.randint(1, N + 2), expect_ok=True)
     # ---- parameter guards and error paths
     objs = [Obj(i, v) for i, v in enumerate([1, 2, 4, 4, 9])]
     for p in (0, -1, 1, 62, 63, 64, 99, 100, 101):
-        add_seq("guard_p", objs, d_abs, None, p, 3)
-    add_seq("guard_p", objs, d_abs, None, 2.0, 3, pmodel=2)
+        add_seq(ck, ops, meta, "guard_p", objs, d_abs, None, p, 3)
+    add_seq(ck, ops, meta, "guard_p", objs, d_abs, None, 2.0, 3, pmodel=2)
     for h in (0, -5, 1, 10 ** 12, 10 ** 12 + 1):
-        add_seq("guard_h", objs, d_abs, None, 2, h)
+        add_seq(ck, ops, meta, "guard_h", objs, d_abs, None, 2, h)
     e100 = 10000000000000000159028911097599180468360808563945281389781327557747838772170381060813469985856815104
     for bad in (-1, -10 ** 30, 10 ** 101, e100 + 1, 10 ** 400):
         for pos in ((0, 1), (0, 4), (2, 3), (3, 4), (1, 0), (4, 2)):
             M = full_matrix(objs, d_abs)
             M[pos[0]][pos[1]] = bad
-            add_seq("guard_d", [Obj(i, i) for i in range(5)], matrix_dist(M), M, 1, 3)
-
+            add_seq(ck, ops, meta, "guard_d", [Obj(i, i) for i in range(5)], matrix_dist(M), M, 1, 3)
     # ---- the constructor alone on arbitrary matrices (zeros off the diagonal, asymmetric, not square)
-    kops = []
-    for _ in range(120 if ck.quick else 3000):
+    for _ in range(400 if ck.quick else 3000):
         n = rng.choice([1, 2, 3, 4, 5, 7])
         hi = rng.choice([1, 2, 3, 10])
-        m = n if rng.random() < 0.9 else rng.choice([max(0, n - 1), n + 1, n + 2])
+        m = n if rng.random() < 0.9 else rng.choice([max(1, n - 1), n + 1, n + 2])
         D = [[rng.randint(0, hi) for _ in range(m)] for _ in range(n)]
         h = rng.randint(1, n + 2)
-        p = safe_power(rng, max(n, m), h, ck.quick)
-        inst, iout = impl_ctor(D, p, h)
-        line = f"o1K {p} {h} ; {fmt_matrix(D)}"
-        if n == 0 or m == 0:
-            continue
-        kops.append(line)
-        ops.append(line)
-        meta.append(("o1K", "ctor" if m == n else "ctor_nonsquare", iout, None))
-        ck.count("ctor" if m == n else "ctor_nonsquare")
-        ck.case(line, nontrivial=inst is not None)
-        if inst is not None and m == n:
-            line = (f"o1C {h} 1 ; {fmt_matrix(D)} ; {fmt_matrix(inst.distances.tolist())} ; "
-                    f"{fmt_matrix(inst.flows.tolist())}")
-            ops.append(line)
-            meta.append(("o1C", "ctor", None, {"D": D, "p": p, "h": h, "flows": inst.flows.tolist()}))
-
-    outs = ck.model(ops)
-    for line, (op, stream, iout, ctx), mout in zip(ops, meta, outs):
-        if op == "o1I":
-            ck.compare(stream, line, sel(mout, ("n", "hor", "dist", "flows", "maps")), iout)
-        elif op == "o1K":
-            ck.compare(stream, line, sel(mout, ("n", "hor", "dist", "flows")), iout)
-        elif op == "o1D":
-            ck.spec(mout == "spec=true", "dedupe", "mappings/tags violate the de-duplication clause "
-                    "(every object exactly once, mapped to itself or to the first kept object at distance zero; "
-                    "kept objects pairwise at positive distance): " + mout, ctx)
-        elif op == "o1C":
-            clause = kv(mout).get("spec", mout)
-            ck.spec(clause == "ok", "flows_" + clause, f"flow/distance matrices violate clause '{clause}'", ctx)
+        add_ctor(ck, ops, meta, D, safe_power(rng, max(n, m), h, ck.quick), h)
+    eval_instance_ops(ck, ops, meta)
 
 
 def _has_fractional(D, h):
@@ -322,6 +337,61 @@ def _has_fractional(D, h):
 
 
 # --------------------------------------------------------------------------- swap distance streams
+_MAL_SCRIPT = r"""
+import json, signal, sys
+sys.path.insert(0, sys.argv[2])
+import numpy as np
+from moptipyapps.order1d.distances import swap_distance
+bounds = sys.argv[3] == "1"
+f = swap_distance if bounds else swap_distance.py_func
+class Timeout(Exception):
+    pass
+def _alarm(*_):
+    raise Timeout()
+signal.signal(signal.SIGALRM, _alarm)
+out = []
+for _, p1, p2 in json.load(open(sys.argv[1])):
+    try:
+        signal.setitimer(signal.ITIMER_REAL, 2.0)   # interrupts the plain-Python kernel only
+        out.append(str(int(f(np.array(p1, dtype=np.int64), np.array(p2, dtype=np.int64)))))
+    except IndexError:
+        out.append("OOB")
+    except Timeout:
+        out.append("DIVERGE")
+    finally:
+        signal.setitimer(signal.ITIMER_REAL, 0)
+print(json.dumps(out))
+"""
+
+
+def run_malformed(ck: Check, cases, bounds: bool):
+    """Run the implementation on malformed arrays in a child process (a kernel that never returns
+    -- possible only for changed code, the model excludes it for the modelled code -- cannot
+    hang the check): plain Python kernel (stray indices raise IndexError) unless numba checks bounds."""
+    import json
+    import subprocess
+    import sys
+    from .common import REPO, WORK
+    f = ck.work / "malformed.json"
+    f.write_text(json.dumps(cases))
+    env = dict(os.environ)
+    if bounds:
+        # numba's on-disk cache does not distinguish NUMBA_BOUNDSCHECK settings: a kernel cached without
+        # checks would be loaded and read foreign memory, so the checked build gets a cache of its own
+        env["NUMBA_CACHE_DIR"] = str(WORK / "numba-c20-boundscheck")
+    try:
+        p = subprocess.run([sys.executable, "-c", _MAL_SCRIPT, str(f), str(REPO), "1" if bounds else "0"],
+                           capture_output=True, text=True, timeout=240, env=env, check=False)
+        out = json.loads(p.stdout.strip().splitlines()[-1])
+        if len(out) == len(cases):
+            return out
+    except subprocess.TimeoutExpired:
+        return ["DIVERGE(timeout)"] * len(cases)
+    except (ValueError, IndexError):
+        pass
+    return ["<child failed>"] * len(cases)
+
+
 def swap_streams(ck: Check) -> None:
     import numpy as np
     from moptipyapps.order1d.distances import swap_distance
@@ -338,7 +408,7 @@ def swap_streams(ck: Check) -> None:
     # ---- malformed stream first: the implementation is only run where the model does not diverge, and
     # (unless numba checks bounds) as plain Python, so that a stray index raises instead of reading foreign memory
     mal = []
-    for _ in range(300 if quick else 3000):
+    for _ in range(800 if quick else 4000):
         n = rng.randint(1, 6)
         p1 = list(range(n))
         rng.shuffle(p1)
@@ -362,7 +432,9 @@ def swap_streams(ck: Check) -> None:
         mal.append((kind, p1, p2))
     lines = [f"o1S {fmt_ints(p1)} ; {fmt_ints(p2)}" for _, p1, p2 in mal]
     outs = ck.model(lines)
-    f_mal = swap_distance if bounds else swap_distance.py_func
+    todo = [(k, p1, p2) for (k, p1, p2), mout in zip(mal, outs) if mout != "DIVERGE"]
+    impl_out = run_malformed(ck, todo, bounds)
+    it = iter(impl_out)
     for (kind, p1, p2), line, mout in zip(mal, lines, outs):
         ck.count("swap_mal_" + kind)
         ck.case(line, nontrivial=False)
@@ -371,7 +443,7 @@ def swap_streams(ck: Check) -> None:
             continue
         if mout == "OOB":
             ck.count("swap_model_oob")
-        ck.compare("swap_malformed", line, kv(mout).get("val", mout), call(f_mal, p1, p2))
+        ck.compare("swap_malformed", line, kv(mout).get("val", mout), next(it))
 
     ops, meta = [], []
     arr = {}
@@ -387,7 +459,7 @@ def swap_streams(ck: Check) -> None:
         perms = list(itertools.permutations(range(n)))
         sources = perms
         if quick and n == 5:
-            sources = rng.sample(perms, 30)
+            sources = rng.sample(perms, 60)
         for p1 in sources:
             a1 = a(p1)
             s1 = fmt_ints(p1)
@@ -404,7 +476,7 @@ def swap_streams(ck: Check) -> None:
         if n <= (4 if quick else 6):
             sources = perms
         else:
-            sources = [tuple(range(n))] + rng.sample(perms, 5 if quick else 30)
+            sources = [tuple(range(n))] + rng.sample(perms, 20 if quick else (200 if n == 7 else 60))
         for p1 in sources:
             a1 = a(p1)
             vals = [int(swap_distance(a1, np.array(p2, dtype=np.int64))) for p2 in perms]
@@ -412,8 +484,8 @@ def swap_streams(ck: Check) -> None:
             meta.append(("bfs", n, vals, p1, None))
         ck.count(f"swap_bfs_sources_n{n}", len(sources))
     # ---- random pairs up to length 200; sometimes p1 = arbitrary pairwise different keys
-    for _ in range(400 if quick else 6000):
-        n = rng.choice([1, 2, 3, 7, 8, 9, 16, 33, 64, 100, 200])
+    for _ in range(1500 if quick else 8000):
+        n = rng.choice([1, 2, 3, 4, 5, 6, 7, 8, 9, 10, 11, 12, 16, 33, 64, 100, 200])
         p1 = list(range(n))
         rng.shuffle(p1)
         p2 = list(p1)
@@ -431,6 +503,10 @@ def swap_streams(ck: Check) -> None:
         ops.append(f"o1S {fmt_ints(p1)} ; {fmt_ints(p2)}")
         meta.append(("pair", n, v, p1, p2))
         ck.count("swap_random_" + kind)
+    eval_swap_ops(ck, ops, meta)
+
+
+def eval_swap_ops(ck: Check, ops, meta) -> None:
     outs = ck.model(ops)
     for line, (kind, n, v, p1, p2), mout in zip(ops, meta, outs):
         if kind == "pair":
@@ -440,7 +516,7 @@ def swap_streams(ck: Check) -> None:
             # C: the value is n minus the number of cycles of p1[k] -> p2[k] (Lean specification `numCycles`)
             cyc = d.get("cyc", "na")
             ck.spec(cyc != "na" and v == n - int(cyc), "swap_cycles",
-                    f"swap_distance={v} but n - cycles = {n} - {cyc}", {"p1": list(p1), "p2": list(p2)})
+                    f"swap_distance={v} but n - cycles = {n} - {cyc}", {"kind": "swap", "p1": list(p1), "p2": list(p2)})
         else:
             perms = list(itertools.permutations(range(n)))
             bfs = kv(mout).get("bfs", "").split(",")
@@ -453,7 +529,7 @@ def swap_streams(ck: Check) -> None:
                         ok, bad = False, (q, b, w)
                         break
             ck.spec(ok, "mintransp", "swap_distance differs from the minimum number of transpositions found by "
-                    f"breadth-first enumeration: {bad}", {"p1": list(p1), "p2": list(bad[0]) if bad else None,
+                    f"breadth-first enumeration: {bad}", {"kind": "bfs", "p1": list(p1), "p2": list(bad[0]) if bad else None,
                                                           "bfs_min": bad[1] if bad else None, "impl": bad[2] if bad else None})
             ck.extra.setdefault("exhaustive_enumeration", {})
             key = f"bfs_len{n}"
@@ -464,6 +540,47 @@ def streams(ck: Check) -> None:
     """Correspondence (B) and spec oracle (C) for the ordering instances and the swap-distance kernel."""
     swap_streams(ck)
     instance_streams(ck)
+
+
+def replay(path: str) -> int:
+    """`./check C20 --replay replays/C20-….json`: re-run the recorded failing inputs on the implementation and
+    re-evaluate the property's clauses on them; exit 1 if any still fails."""
+    import json
+    import numpy as np
+    rec = json.loads(open(path).read())
+    ck = Check("C20", "quick", 0)
+    ops, meta, sops, smeta = [], [], [], []
+    for v in rec.get("violations", []):
+        c = v.get("case") or {}
+        kind = c.get("kind")
+        print(f"replaying {v.get('key')}: {kind}")
+        if kind == "seq":
+            M = c["M"]
+            add_seq(ck, ops, meta, c.get("stream", "replay"), [Obj(i, i) for i in range(len(M))], matrix_dist(M), M,
+                    c["p"], c["h"], expect_ok=c.get("expect_ok", False))
+        elif kind == "ctor":
+            add_ctor(ck, ops, meta, c["D"], c["p"], c["h"])
+        elif kind in ("swap", "bfs") and c.get("p1") is not None:
+            from moptipyapps.order1d.distances import swap_distance
+            p1 = c["p1"]
+            if kind == "swap":
+                val = int(swap_distance(np.array(p1, dtype=np.int64), np.array(c["p2"], dtype=np.int64)))
+                sops.append(f"o1S {fmt_ints(p1)} ; {fmt_ints(c['p2'])}")
+                smeta.append(("pair", len(p1), val, p1, c["p2"]))
+            else:
+                perms = list(itertools.permutations(range(len(p1))))
+                vals = [int(swap_distance(np.array(p1, dtype=np.int64), np.array(q, dtype=np.int64))) for q in perms]
+                sops.append(f"o1B {fmt_ints(p1)}")
+                smeta.append(("bfs", len(p1), vals, p1, None))
+    eval_instance_ops(ck, ops, meta)
+    eval_swap_ops(ck, sops, smeta)
+    for m in ck.corr_mismatch:
+        print("correspondence:", m)
+    for v in ck.spec_violations:
+        print("VIOLATION (replayed)", v["key"], v["what"], v["case"])
+    print(f"[C20 replay] spec checks={ck.spec_checked} still failing={len(ck.spec_violations)} "
+          f"correspondence mismatches={len(ck.corr_mismatch)}")
+    return 1 if ck.spec_violations else 0
 
 
 def check(ck: Check) -> None:
